@@ -517,8 +517,19 @@ def _match(pred, obj):
     return True
 
 
+def keep_build(exe):
+    """a running check marks the build directory of its executable as in use (build_impl / build_model keep recent ones)"""
+    try:
+        d = os.path.dirname(exe if isinstance(exe, str) else exe[0])
+        if d.startswith(BUILD):
+            os.utime(d, None)
+    except OSError:
+        pass
+
+
 def run_lines(exe, text, timeout=600, env=None, cwd=None):
     """feed text on stdin, return (rc, list of output lines, stderr tail)"""
+    keep_build(exe)
     try:
         p = subprocess.run([exe] if isinstance(exe, str) else exe, input=text.encode() if isinstance(text, str) else text,
                            stdout=subprocess.PIPE, stderr=subprocess.PIPE, timeout=timeout, env=env, cwd=cwd)
